@@ -147,6 +147,9 @@ def random_cases(rng, n):
 def report(ctx, recs, rejects):
     for idx, clause in rejects:
         c = recs[idx]
+        if clause == "drift":       # allowed by the statement, different from the transcription of bins.py: a note, never a verdict
+            ctx.extra["alg_drift"] = ctx.extra.get("alg_drift", 0) + 1
+            continue
         ctx.violation({"s": c["s"], "e": c["e"], "fmt": c["fmt"], "moved_by": c.get("moved_by", 0)}, clause,
                       {"observed": {k: c[k] for k in ("isint", "one", "runs", "fbin", "dbbin")}})
 
@@ -201,9 +204,8 @@ def run(ctx):
     rejset = set(i for i, _ in rej)
     for i, r in enumerate(recs):
         e_one = exp[(r["s"], r["e"], r["fmt"])]["one"]
-        if (i not in rejset) != (r["isint"] and r["one"] == e_one) and r["runs"] != [[-1, -1]]:
-            if i not in rejset:
-                raise core.MachineryError("generator and judge disagree on %r" % r)
+        if (i not in rejset) and not (r["isint"] and r["one"] == e_one) and r["runs"] != [[-1, -1]]:
+            raise core.MachineryError("generator and judge disagree on %r" % r)
     report(ctx, recs, rej)
     for r in recs:
         ctx.count((r["s"], r["e"], r["fmt"]), nontrivial(r))
